@@ -11,10 +11,10 @@ open Clipper.Props.C12
 #print axioms inputsOf_replay
 #print axioms used_eq_fresh_replay
 #print axioms reuseable_shared
-#print axioms offset_frame_local_false_endtype
-#print axioms offset_frame_local_false_delta
-#print axioms offset_frame_local_partial
+#print axioms offset_frame_local
+#print axioms delta_member_unchanged
 #print axioms refFrame_is_alone
-#print axioms round_steps_fresh_in_group
+#print axioms round_steps_fresh
+#print axioms insignificant_delta
 #print axioms rectclip_per_path
 #print axioms rectclip_scratch_clean_after
